@@ -403,6 +403,61 @@ func validUTF8(s string) bool {
 // genSignedMsg builds a hostile consensus message at the object level and signs it with a validator key.
 func (c *child) genSignedMsg(rng *rand.Rand) ([]byte, []string) {
 	e := c.e
+	if rng.Intn(3) == 0 {
+		// an otherwise VALID corpus message with exactly one structural knock-out, re-signed by a committee member: it gets
+		// past the signature and certificate checks and reaches the handlers that touch the nested objects
+		m := new(bft.Message)
+		if err := lib.Unmarshal(e.corpus["bft.Message"][rng.Intn(len(e.corpus["bft.Message"]))], m); err != nil {
+			panic(err)
+		}
+		if m.HighQc == nil && m.Qc != nil && m.Header != nil && rng.Intn(2) == 0 {
+			// proposer messages of later phases may carry a justification too
+			for _, bz := range e.corpus["bft.Message"] {
+				o := new(bft.Message)
+				if lib.Unmarshal(bz, o) == nil && o.HighQc != nil {
+					m.HighQc = o.HighQc
+					break
+				}
+			}
+		}
+		qcs := map[string]*lib.QuorumCertificate{"qc": m.Qc, "high_qc": m.HighQc}
+		names := []string{"qc", "high_qc"}
+		which := names[rng.Intn(2)]
+		q := qcs[which]
+		op := "none"
+		if q != nil {
+			switch rng.Intn(9) {
+			case 0:
+				q.Header, op = nil, "header=nil"
+			case 1:
+				q.Header, op = &lib.View{}, "header=zero"
+			case 2:
+				q.Signature, op = nil, "signature=nil"
+			case 3:
+				q.Signature, op = &lib.AggregateSignature{}, "signature=empty"
+			case 4:
+				q.BlockHash, op = nil, "block_hash=nil"
+			case 5:
+				q.Block, q.Results, op = nil, nil, "block,results=nil"
+			case 6:
+				q.ResultsHash, op = nil, "results_hash=nil"
+			case 7:
+				q.ProposerKey, op = nil, "proposer_key=nil"
+			case 8:
+				if q.Header != nil {
+					q.Header.RootHeight += uint64(1 + rng.Intn(3))
+					op = "root_height+k"
+				}
+			}
+		}
+		if rng.Intn(6) == 0 && len(m.LastDoubleSignEvidence) > 0 {
+			m.LastDoubleSignEvidence[0].VoteB, op = nil, op+",evidence.vote_b=nil"
+		}
+		if err := m.Sign(e.keys[0]); err != nil {
+			panic(err)
+		}
+		return mb(m), []string{"signed-valid-msg-one-knockout:" + which + "." + op}
+	}
 	var m *bft.Message
 	if rng.Intn(2) == 0 {
 		m = new(bft.Message)
